@@ -450,7 +450,8 @@ def _lint(ctx, prop):
         sw.floor('calls with named arguments in the anchor files', nsw, 1)
         ov, nov = lint.rule_OV1(ctx, files)
         n1, nn1 = lint.rule_N1(ctx, files)
-        out += [sw, ov, n1]
+        d3, nd3 = lint.rule_D3(ctx, files)
+        out += [sw, ov, n1, d3]
     return out
 
 
